@@ -240,3 +240,16 @@ def run(F, R, tier):
         m2 = header_mutations(BC) + BC.calls_named("headers_mut")
         R.check(not m2, "C05.R4", "C05.R4:%s:no-header-mutation" % CONV, "%s:%s" % (cv["file"], cv["line"]),
                 "convert_request performs no header mutation")
+    # helper contract: the date helper renders the clock, in the HTTP date format
+    from lib import contracts
+    dh = R.anchor("proxy_agent_shared::misc_helpers::get_date_time_rfc1123_string", "C05.R2")
+    if dh:
+        BD = mir.Body(dh, F)
+        ok, last = contracts.follow_chain(BD, contracts.RET, ["Iterator::collect", "chars", "OffsetDateTime::format", "OffsetDateTime::now_utc"])
+        fmts = set()
+        for bi, w, r, t in BD.calls_named("format_description::parse"):
+            fmts |= contracts.const_names(BD, t["args"][0])
+        want = "'[weekday repr:short], [day] [month repr:short] [year] [hour]:[minute]:[second] GMT'"
+        R.check(ok and fmts == {want}, "C05.R2", "C05.R2:%s:contract" % dh["id"], "%s:%s" % (dh["file"], dh["line"]),
+                "get_date_time_rfc1123_string() = OffsetDateTime::now_utc().format(<RFC 1123 description>) - the proxy's current time",
+                "the date helper changed: %s; format description %s" % (last if not ok else "chain ok", sorted(fmts)))
